@@ -34,7 +34,7 @@
    A search page examined the positions [start, X) (X = next, or the stream length when next is absent) and returns
    exactly the matching ones, at most `max`; index/time lookups return the first stream position not before the
    requested message / time.                                                                                   *)
-EXTENDS Integers, Sequences, FiniteSets, TLC, Json, IOUtils
+EXTENDS Integers, Sequences, FiniteSets, SequencesExt, TLC, Json, IOUtils
 
 CONSTANTS KF_C16_SearchNextSkips,    \* a full page returns next = (last returned position) + 2: one position is never examined
           KF_C16_SearchUnfiltered,   \* a search in a stream without filters examines nothing (empty result, no next)
@@ -42,12 +42,14 @@ CONSTANTS KF_C16_SearchNextSkips,    \* a full page returns next = (last returne
 
 Rec == ndJsonDeserialize(IOEnv.TRACE)
 
-VARIABLES l, case, phase, logline, nbig, cur, maxId, viol, kfUsed
-vars == <<l, case, phase, logline, nbig, cur, maxId, viol, kfUsed>>
+VARIABLES l, case, phase, logline, nbig, sorted, cur, maxId, viol, kfUsed
+vars == <<l, case, phase, logline, nbig, sorted, cur, maxId, viol, kfUsed>>
+\* sorted: the file was opened with "sort":true - the stream order is by calculated time (= timestamp order within the one lifecycle
+\* per ECU of the generated logs; timestamps are distinct) instead of by index
 \* cur: [id, kind, fl (1-based log positions kept by the filters), unf (no filters), a, b, del (delivered under id), live, full]
 
 NoCur == [id |-> 0, kind |-> "", fl |-> <<>>, pr |-> <<>>, slen |-> 0, unf |-> FALSE, a |-> 0, b |-> 0, del |-> 0, live |-> FALSE, full |-> FALSE]
-Init == /\ l = 1 /\ case = -1 /\ phase = "idle" /\ logline = 0 /\ nbig = 0 /\ cur = NoCur /\ maxId = 0 /\ viol = {} /\ kfUsed = {}
+Init == /\ l = 1 /\ case = -1 /\ phase = "idle" /\ logline = 0 /\ nbig = 0 /\ sorted = FALSE /\ cur = NoCur /\ maxId = 0 /\ viol = {} /\ kfUsed = {}
 
 Ev(e) == l <= Len(Rec) /\ Rec[l].ev = e /\ l' = l + 1
 Cur == Rec[l]
@@ -64,7 +66,9 @@ Keep(filt, m) == /\ (ActiveOf(filt, "pos") = {} \/ \E j \in ActiveOf(filt, "pos"
                  /\ ~(\E j \in ActiveOf(filt, "neg") : FMatches(filt[j], m))
                  /\ (ActiveOf(filt, "event") = {} \/ \E j \in ActiveOf(filt, "event") : FMatches(filt[j], m))
 FiltersActive(filt) == (ActiveOf(filt, "pos") \cup ActiveOf(filt, "neg") \cup ActiveOf(filt, "event")) # {}
-Kept(filt) == SelectSeq([i \in 1..Len(Log) |-> i], LAMBDA i : Keep(filt, Log[i]))
+\* the log positions in stream order
+Order == IF sorted THEN SortSeq([i \in 1..Len(Log) |-> i], LAMBDA x, y : Log[x].ts < Log[y].ts) ELSE [i \in 1..Len(Log) |-> i]
+Kept(filt) == SelectSeq(Order, LAMBDA i : Keep(filt, Log[i]))
 
 \* ---- big periodic log: message i has ecu e[i % |e|], apid a[i % |a|], ctid c[i % |c|]; the kept positions repeat with period L
 Per == Rec[logline].period
@@ -72,9 +76,9 @@ L == Len(Per.e) * Len(Per.a) * Len(Per.c)
 BigMsg(i) == [e |-> Per.e[(i % Len(Per.e)) + 1], a |-> Per.a[(i % Len(Per.a)) + 1], c |-> Per.c[(i % Len(Per.c)) + 1]]
 KeptResidues(filt) == SelectSeq([r \in 1..L |-> r - 1], LAMBDA r : Keep(filt, BigMsg(r)))        \* ascending
 BigLen(res) == (nbig \div L) * Len(res) + Cardinality({k \in 1..Len(res) : res[k] < nbig % L})
-LogEv == /\ Ev("log") /\ phase \in {"idle", "ended", "rejected"} /\ UNCHANGED <<case, phase, logline, nbig, cur, maxId, viol, kfUsed>>
+LogEv == /\ Ev("log") /\ phase \in {"idle", "ended", "rejected"} /\ UNCHANGED <<case, phase, logline, nbig, sorted, cur, maxId, viol, kfUsed>>
 
-Reset == /\ Ev("reset") /\ case' = Cur.case /\ logline' = Cur.hdr.logline /\ nbig' = Cur.hdr.big /\ cur' = NoCur /\ maxId' = 0 /\ phase' = "running"
+Reset == /\ Ev("reset") /\ case' = Cur.case /\ logline' = Cur.hdr.logline /\ nbig' = Cur.hdr.big /\ sorted' = Cur.hdr.sort /\ cur' = NoCur /\ maxId' = 0 /\ phase' = "running"
          /\ viol' = (IF phase = "running" THEN viol \cup {case} ELSE viol) /\ UNCHANGED kfUsed
 
 OkStream == /\ Ev("ok_stream") /\ phase = "running" /\ ~cur.live /\ Cur.id > maxId
@@ -84,7 +88,7 @@ OkStream == /\ Ev("ok_stream") /\ phase = "running" /\ ~cur.live /\ Cur.id > max
                        slen |-> (IF nbig > 0 THEN BigLen(res) ELSE Len(kept)),
                        unf |-> ~FiltersActive(Cur.filt),
                        a |-> Cur.win[1], b |-> Cur.win[2], del |-> 0, live |-> TRUE, full |-> Cur.parsed]
-            /\ maxId' = Cur.id /\ UNCHANGED <<case, phase, logline, nbig, viol, kfUsed>>
+            /\ maxId' = Cur.id /\ UNCHANGED <<case, phase, logline, nbig, sorted, viol, kfUsed>>
 
 WinEnd == Max2(cur.a, Min2(cur.b, cur.slen))          \* first stream position (0-based) not to be delivered
 
@@ -94,7 +98,7 @@ BinMsgs == /\ Ev("bin_msgs") /\ phase = "running" /\ cur.live /\ Cur.id = cur.id
            /\ cur.a + cur.del + Cur.n <= WinEnd                                  \* inside the window, nothing twice
            /\ \A j \in 1..Cur.n : SameMsg(Cur.msgs[j], Log[cur.fl[cur.a + cur.del + j]])   \* in order, fields equal
            /\ cur' = [cur EXCEPT !.del = @ + Cur.n]
-           /\ UNCHANGED <<case, phase, logline, nbig, maxId, viol, kfUsed>>
+           /\ UNCHANGED <<case, phase, logline, nbig, sorted, maxId, viol, kfUsed>>
 
 \* ---- frame summaries.  IdxAt(p): message index expected at stream position p (0-based); SumIdx(lo, n): sum of the expected
 \*      indices of the positions lo .. lo+n-1 modulo M (all intermediate values stay below 2^31)
@@ -115,26 +119,26 @@ SumOk == /\ cur.a + cur.del + Cur.n <= WinEnd                                   
 BinSum == /\ Ev("bin_sum") /\ phase = "running" /\ cur.live /\ Cur.id = cur.id /\ Cur.n > 0 /\ nbig > 0
           /\ SumOk
           /\ cur' = [cur EXCEPT !.del = @ + Cur.n]
-          /\ UNCHANGED <<case, phase, logline, nbig, maxId, viol, kfUsed>>
+          /\ UNCHANGED <<case, phase, logline, nbig, sorted, maxId, viol, kfUsed>>
 TxtSum == /\ Ev("txt_sum") /\ phase = "running" /\ cur.live /\ Cur.id = cur.id /\ Cur.n > 0
           /\ Cur.pos0 = cur.a + cur.del /\ Cur.posinc = Cur.n - 1                 \* consecutive stream positions
           /\ SumOk
           /\ cur' = [cur EXCEPT !.del = @ + Cur.n]
-          /\ UNCHANGED <<case, phase, logline, nbig, maxId, viol, kfUsed>>
+          /\ UNCHANGED <<case, phase, logline, nbig, sorted, maxId, viol, kfUsed>>
 
 EndMarker == /\ Ev("bin_msgs") /\ phase = "running" /\ cur.live /\ Cur.id = cur.id /\ Cur.n = 0 /\ cur.kind = "query"
              /\ (cur.full => cur.a + cur.del = WinEnd)
              /\ cur' = [cur EXCEPT !.live = FALSE]
-             /\ UNCHANGED <<case, phase, logline, nbig, maxId, viol, kfUsed>>
+             /\ UNCHANGED <<case, phase, logline, nbig, sorted, maxId, viol, kfUsed>>
 
 Quiescent == /\ Ev("quiescent") /\ phase = "running"
              /\ (cur.live => cur.a + cur.del = WinEnd)                           \* eventually: exactly the window
              /\ (~cur.live /\ cur.kind = "query" /\ cur.full => cur.a + cur.del = WinEnd)
-             /\ UNCHANGED <<case, phase, logline, nbig, cur, maxId, viol, kfUsed>>
+             /\ UNCHANGED <<case, phase, logline, nbig, sorted, cur, maxId, viol, kfUsed>>
 
 OkChange == /\ Ev("ok_change") /\ phase = "running" /\ cur.live /\ Cur.old = cur.id /\ Cur.id > maxId
             /\ cur' = [cur EXCEPT !.id = Cur.id, !.a = Cur.win[1], !.b = Cur.win[2], !.del = 0]
-            /\ maxId' = Cur.id /\ UNCHANGED <<case, phase, logline, nbig, viol, kfUsed>>
+            /\ maxId' = Cur.id /\ UNCHANGED <<case, phase, logline, nbig, sorted, viol, kfUsed>>
 
 \* ---- search: stream positions are 0-based indices into the stream's sequence (FL, or the whole log without filters)
 StreamLen == cur.slen
@@ -144,38 +148,41 @@ OkSearch == /\ SearchCommon
             /\ Len(Cur.idxs) <= Max2(1, Cur.max)
             /\ IF Cur.next < 0 THEN Cur.idxs = SMatches(Cur.filt, Cur.start, StreamLen)
                ELSE /\ Cur.next > Cur.start /\ Cur.next <= StreamLen /\ Cur.idxs = SMatches(Cur.filt, Cur.start, Cur.next)
-            /\ UNCHANGED <<case, phase, logline, nbig, cur, maxId, viol, kfUsed>>
+            /\ UNCHANGED <<case, phase, logline, nbig, sorted, cur, maxId, viol, kfUsed>>
 KfSearchSkips == /\ SearchCommon /\ KF_C16_SearchNextSkips /\ ~cur.unf
                  /\ Cur.next >= 0 /\ Len(Cur.idxs) = Cur.max /\ Cur.max >= 1 /\ Cur.next = Cur.idxs[Len(Cur.idxs)] + 2
                  /\ Cur.next <= StreamLen
                  /\ Cur.idxs = SMatches(Cur.filt, Cur.start, Cur.next - 1)            \* the page itself is right,
                  /\ Keep(Cur.filt, Log[cur.fl[Cur.next]])                            \* position next-1 matches and is skipped
                  /\ kfUsed' = kfUsed \cup {[case |-> case, kf |-> "KF_C16_SearchNextSkips"]}
-                 /\ UNCHANGED <<case, phase, logline, nbig, cur, maxId, viol>>
+                 /\ UNCHANGED <<case, phase, logline, nbig, sorted, cur, maxId, viol>>
 KfSearchUnfiltered == /\ SearchCommon /\ KF_C16_SearchUnfiltered /\ cur.unf
                       /\ Cur.idxs = <<>> /\ Cur.next < 0 /\ SMatches(Cur.filt, Cur.start, StreamLen) # <<>>
                       /\ kfUsed' = kfUsed \cup {[case |-> case, kf |-> "KF_C16_SearchUnfiltered"]}
-                      /\ UNCHANGED <<case, phase, logline, nbig, cur, maxId, viol>>
+                      /\ UNCHANGED <<case, phase, logline, nbig, sorted, cur, maxId, viol>>
 
 \* ---- lookups: the first stream position whose message is not before the requested message index / time
-IndexPos(v) == Cardinality({p \in 1..StreamLen : Log[cur.fl[p]].i < v})
-TimePos(v) == Cardinality({p \in 1..StreamLen : Log[cur.fl[p]].rx < v})
+\* "not before" in STREAM order: by index, resp. for a sorted file by time; the message with index v is Log[v + 1]
+OrdKey(m) == IF sorted THEN m.ts ELSE m.i
+IndexPos(v) == Cardinality({p \in 1..StreamLen : OrdKey(Log[cur.fl[p]]) < OrdKey(Log[v + 1])})
+\* time of a message in ms = timestamp (0.1 ms) / 10 (= reception time for the messages that were not delivered late)
+TimePos(v) == Cardinality({p \in 1..StreamLen : Log[cur.fl[p]].ts \div 10 < v})
 BsCommon(e) == /\ Ev(e) /\ phase = "running" /\ cur.live /\ Cur.id = cur.id /\ cur.kind = "stream"
 OkBsearch == /\ BsCommon("ok_bsearch")
              /\ IF Cur.key = "index"
                 THEN (IF Cur.val < Len(Log) THEN Cur.pos = IndexPos(Cur.val) ELSE Cur.pos = StreamLen)   \* beyond the end: saturating
                 ELSE Cur.pos = TimePos(Cur.val)
-             /\ UNCHANGED <<case, phase, logline, nbig, cur, maxId, viol, kfUsed>>
+             /\ UNCHANGED <<case, phase, logline, nbig, sorted, cur, maxId, viol, kfUsed>>
 ErrBsearch == /\ BsCommon("err_bsearch") /\ Cur.key = "index" /\ Cur.val >= Len(Log)       \* or: no such message in the file
-              /\ UNCHANGED <<case, phase, logline, nbig, cur, maxId, viol, kfUsed>>
+              /\ UNCHANGED <<case, phase, logline, nbig, sorted, cur, maxId, viol, kfUsed>>
 KfIndexUnfiltered == /\ BsCommon("ok_bsearch") /\ KF_C16_IndexLookupUnfiltered /\ cur.unf /\ Cur.key = "index"
                      /\ Cur.val < Len(Log) /\ Cur.pos = 0 /\ IndexPos(Cur.val) # 0
                      /\ kfUsed' = kfUsed \cup {[case |-> case, kf |-> "KF_C16_IndexLookupUnfiltered"]}
-                     /\ UNCHANGED <<case, phase, logline, nbig, cur, maxId, viol>>
+                     /\ UNCHANGED <<case, phase, logline, nbig, sorted, cur, maxId, viol>>
 
 Stopped == /\ Ev("stopped") /\ phase = "running" /\ cur.live /\ Cur.id = cur.id
-           /\ cur' = [cur EXCEPT !.live = FALSE] /\ UNCHANGED <<case, phase, logline, nbig, maxId, viol, kfUsed>>
-End == /\ Ev("end") /\ phase = "running" /\ phase' = "ended" /\ UNCHANGED <<case, logline, nbig, cur, maxId, viol, kfUsed>>
+           /\ cur' = [cur EXCEPT !.live = FALSE] /\ UNCHANGED <<case, phase, logline, nbig, sorted, maxId, viol, kfUsed>>
+End == /\ Ev("end") /\ phase = "running" /\ phase' = "ended" /\ UNCHANGED <<case, logline, nbig, sorted, cur, maxId, viol, kfUsed>>
 
 Matched == \/ ENABLED OkStream \/ ENABLED BinMsgs \/ ENABLED BinSum \/ ENABLED TxtSum \/ ENABLED EndMarker \/ ENABLED Quiescent \/ ENABLED OkChange
            \/ ENABLED OkSearch \/ ENABLED KfSearchSkips \/ ENABLED KfSearchUnfiltered
@@ -184,11 +191,11 @@ Reject == /\ l <= Len(Rec) /\ Cur.ev \notin {"reset", "log"} /\ phase = "running
           /\ PrintT(<<"CASE_REJECTED", case, l, ToJson([event |-> Cur, id |-> cur.id, kind |-> cur.kind, a |-> cur.a, b |-> cur.b,
                                                        delivered |-> cur.del, live |-> cur.live, stream_len |-> cur.slen,
                                                        fl_head |-> SubSeq(cur.fl, 1, Min2(12, Len(cur.fl)))])>>)
-          /\ l' = l + 1 /\ phase' = "rejected" /\ viol' = viol \cup {case} /\ UNCHANGED <<case, logline, nbig, cur, maxId, kfUsed>>
+          /\ l' = l + 1 /\ phase' = "rejected" /\ viol' = viol \cup {case} /\ UNCHANGED <<case, logline, nbig, sorted, cur, maxId, kfUsed>>
 SkipRest == /\ l <= Len(Rec) /\ Cur.ev \notin {"reset", "log"} /\ phase \in {"rejected", "ended", "idle"}
             /\ l' = l + 1
             /\ IF phase = "ended" THEN viol' = viol \cup {case} /\ phase' = "rejected" ELSE UNCHANGED <<viol, phase>>
-            /\ UNCHANGED <<case, logline, nbig, cur, maxId, kfUsed>>
+            /\ UNCHANGED <<case, logline, nbig, sorted, cur, maxId, kfUsed>>
 
 \* the strict reading is tried first: a deviation action only where no contract action matches
 Strict == OkStream \/ BinMsgs \/ BinSum \/ TxtSum \/ EndMarker \/ Quiescent \/ OkChange \/ OkSearch \/ OkBsearch \/ ErrBsearch \/ Stopped \/ End
